@@ -239,6 +239,53 @@ def checkBlockSanity : List String := [
   "guard !header.MerkleRoot.IsEqual(calcTransactionsRoot)"
 ]
 
+/-- core/transaction/nexttrundposinfotransaction.go : isNextArbitratorsSame -/
+def isNextArbitratorsSame : List String := [
+  "guard len(nextTurnDPOSInfo.CRPublicKeys)+len(nextTurnDPOSInfo.DPOSPublicKeys) != len(nextArbitrators)",
+  "guard crindex >= len(nextTurnDPOSInfo.CRPublicKeys)",
+  "idx nextTurnDPOSInfo.CRPublicKeys[crindex]",
+  "idx nextTurnDPOSInfo.CRPublicKeys[crindex]",
+  "guard dposIndex >= len(nextTurnDPOSInfo.DPOSPublicKeys)",
+  "idx nextTurnDPOSInfo.DPOSPublicKeys[dposIndex]"
+]
+
+/-- core/transaction/nexttrundposinfotransaction.go : isNextArbitratorsSameV1 -/
+def isNextArbitratorsSameV1 : List String := [
+  "guard len(nextTurnDPOSInfo.DPOSPublicKeys) != len(nextArbitrators)",
+  "idx nextTurnDPOSInfo.DPOSPublicKeys[i]",
+  "idx nextTurnDPOSInfo.DPOSPublicKeys[i]",
+  "guard len(nextTurnDPOSInfo.CRPublicKeys) < len(nextCRCArbitrators)",
+  "idx nextTurnDPOSInfo.CRPublicKeys[i]",
+  "idx nextTurnDPOSInfo.CRPublicKeys[i]"
+]
+
+/-- blockchain/blockchain.go : BlockChain.maybeAcceptBlock -/
+def maybeAcceptBlock : List String := [
+  "guard err != nil",
+  "guard prevNode != nil",
+  "guard block.Header.Height != blockHeight",
+  "guard prevNode == nil && b.BestChain != nil",
+  "guard err != nil",
+  "guard prevNode != nil",
+  "guard err != nil",
+  "guard inMainChain && !reorganized",
+  "guard block.Height >= b.chainParams.CRCOnlyDPOSHeight",
+  "guard confirm != nil",
+  "guard block.Height == b.chainParams.CRCOnlyDPOSHeight-1"
+]
+
+/-- blockchain/blockchain.go : BlockChain.connectBestChain -/
+def connectBestChain : List String := [
+  "guard b.BestChain == nil || (node.Parent.Hash.IsEqual(*b.BestChain.Hash))",
+  "guard err != nil",
+  "guard err != nil",
+  "guard node.Parent != nil",
+  "idx b.blockCache[*node.Hash]",
+  "idx b.confirmCache[*node.Hash]",
+  "for fork.Parent != nil",
+  "guard err != nil"
+]
+
 /-- core/transaction/registercrtransaction.go : RegisterCRTransaction.SpecialContextCheck -/
 def registerCRSpecialContextCheck : List String := [
   "guard err != nil",
